@@ -1131,6 +1131,11 @@ class Optimizer(object):
                         np.argsort(values)[: self.n_restarts_optimizer]
                     ]
 
+                    # the gradient of the MES acquisition function is not implemented
+                    use_gradients = has_gradients(
+                        self.base_estimator_
+                    ) and not cand_acq_func.startswith("MES")
+
                     with warnings.catch_warnings():
                         warnings.simplefilter("ignore")
                         results = Parallel(n_jobs=self.n_jobs)(
@@ -1142,12 +1147,12 @@ class Optimizer(object):
                                     np.min(yi),
                                     cand_acq_func,
                                     self.acq_func_kwargs,
-                                    has_gradients(self.base_estimator_),
+                                    use_gradients,
                                 ),
                                 bounds=transformed_bounds,
                                 # TODO: Use approximated gradient when not available
                                 # approx_grad=False,
-                                approx_grad=not (has_gradients(self.base_estimator_)),
+                                approx_grad=not use_gradients,
                                 maxiter=20,
                             )
                             for x in x0
